@@ -660,6 +660,9 @@ func lastLines(s string, n int) string {
 
 func (r *Run) native(results []*HarnessResult) {
 	replayDir := filepath.Join(verifDir, "replays")
+	if d := os.Getenv("GOSYM_REPLAYDIR"); d != "" {
+		replayDir = d
+	}
 	os.MkdirAll(replayDir, 0o755)
 	for _, hr := range results {
 		need := len(hr.Failures) > 0 || len(hr.Witnesses) > 0
@@ -916,7 +919,7 @@ func (r *Run) report(results []*HarnessResult, loadS float64) int {
 	}
 	data, _ := json.MarshalIndent(ev, "", " ")
 	os.MkdirAll(filepath.Join(verifDir, "evidence"), 0o755)
-	if r.Only == "" {
+	if r.Only == "" && os.Getenv("GOSYM_NOEVIDENCE") == "" {
 		os.WriteFile(filepath.Join(verifDir, "evidence", r.Spec.Prop+".json"), data, 0o644)
 	}
 	fmt.Fprintf(os.Stderr, "%s %s: paths=%d obligations=%d discharged=%d unknown=%d violations=%d known=%d problems=%d wall=%.1fs exit=%d\n",
